@@ -380,11 +380,18 @@ fn compare<T>(o: &mut Out, spec: &Spec<T>, v: &T, restored: &T, obs0: &Ob, dbg0:
 pub fn eq_of<T: PartialEq>(a: &T, b: &T) -> bool {
     a == b
 }
+/// ndarray's Debug prints `strides=[..], layout=..` — memory layout, not content; it legitimately
+/// differs after deserialisation (always standard layout), so it is removed before comparing
+fn strip_layout(s: String) -> String {
+    static RE: std::sync::OnceLock<regex::Regex> = std::sync::OnceLock::new();
+    let re = RE.get_or_init(|| regex::Regex::new(r"strides=\[[^\]]*\], layout=[A-Za-z]+ \(0x[0-9a-f]+\)").unwrap());
+    re.replace_all(&s, "strides/layout").into_owned()
+}
 pub fn dbg_of<T: std::fmt::Debug>(x: &T) -> String {
-    format!("{:?}", x)
+    strip_layout(format!("{:?}", x))
 }
 pub fn dbg_pretty<T: std::fmt::Debug>(x: &T) -> String {
-    format!("{:#?}", x)
+    strip_layout(format!("{:#?}", x))
 }
 
 impl<'a, T: std::fmt::Debug> Spec<'a, T> {
